@@ -42,13 +42,17 @@ def run(pid, tier, replay=None):
     except V.Machinery as e:
         # a panic in a goroutine of the daemon itself (not under the driver's guard) takes the driver process down:
         # that is real behaviour of the code under test, reported as a violation with the process output as evidence
-        m = re.search(r"panic: .*?\n\ngoroutine \d+.*?\n((?:.*\n){1,12})", str(e))
-        if m and "github.com/named-data/ndnd/fw" in m.group(1).split("\n")[0] + m.group(1):
-            os.makedirs(os.path.join(V.VERIF, "out", "violations"), exist_ok=True)
-            path = os.path.join(V.VERIF, "out", "violations", "%s-daemon-crash.txt" % pid)
+        txt = str(e)
+        m = re.search(r"panic: .*?\n\ngoroutine \d+.*?\n((?:.*\n){1,12})", txt)
+        crashed = m and "github.com/named-data/ndnd/fw" in m.group(1).split("\n")[0] + m.group(1)
+        # core.LogFatal terminates the daemon: the forwarder gave up while serving a command or the traffic that followed it
+        fatal = re.search(r"FATAL.{0,40}\[[^\]]*\] .*", txt)
+        if crashed or fatal:
+            os.makedirs(os.path.join(V.VERIF, "out", pid), exist_ok=True)
+            path = os.path.join(V.VERIF, "out", pid, "daemon-crash-%d.txt" % os.getpid())
             with open(path, "w") as f:
-                f.write(str(e))
+                f.write(txt)
             print("VIOLATION property=%s replay=%s" % (pid, path))
-            V.log("  the daemon crashed (unguarded goroutine) while serving a management history")
+            V.log("  the daemon %s while serving a management history" % ("crashed (unguarded goroutine)" if crashed else "terminated itself: " + fatal.group(0)[:200]))
             return 1
         raise
